@@ -565,7 +565,7 @@ def replay(ctx, history):
     replay_history(ChunkIOLarge if large else ChunkIO, ctx, history)
 
 
-SUBS = [Sub("machine", run, replay, quick=400, thorough=72000,
+SUBS = [Sub("machine", run, replay, quick=400, thorough=30000,
             min_per_shard=10),
-        Sub("machine_large", run_large, replay, quick=48, thorough=8400,
+        Sub("machine_large", run_large, replay, quick=48, thorough=1200,
             min_per_shard=3)]
